@@ -273,6 +273,7 @@ def run(tier, replay=None):
         rc2, derr = vlib.sh("%s < %s > %s" % (shlex.quote(drv), shlex.quote(out_path), shlex.quote(drv_path)), timeout=3000)
         n_mism = 0
         hists = {}
+        evalb = {}
         with open(drv_path, errors="replace") as f:
             for l in f:
                 l = l.rstrip("\n")
@@ -280,6 +281,9 @@ def run(tier, replay=None):
                     n_mism += 1
                     if len(mism) < 200:
                         mism.append(l)
+                elif l.startswith("EVALB "):
+                    p = l.split(" ")
+                    evalb[p[1]] = {kv.partition("=")[0]: float(kv.partition("=")[2]) if "ratio" in kv else int(kv.partition("=")[2]) for kv in p[2:]}
                 elif l.startswith("HIST "):
                     p = l.split(" ")
                     hists[p[1]] = {kv.rpartition("=")[0]: int(kv.rpartition("=")[2]) for kv in p[2:]}
@@ -306,6 +310,7 @@ def run(tier, replay=None):
     else:
         n_mism = 0
         hists = {}
+        evalb = {}
     for pth in (out_path, drv_path):       # several hundred MB in the thorough tier; every replay_cmd regenerates its case
         try:
             os.remove(pth)
@@ -337,6 +342,8 @@ def run(tier, replay=None):
     cov["successful_runs"] = n_ok
     # every successful More-Thuente / CG_DESCENT run of the library classified into the disjuncts of
     # C07_morethuente_success_cases / C07_cgdescent_success_cases (exit taken = first true test in source order; NONE = violation)
+    # C07_evaluations_bounded on every recorded run: largest observed evaluations / proved bound per line-search
+    cov["evaluations_vs_bound"] = evalb
     for h in ("mt_success_cases", "mt_success_flags", "cg_success_cases", "cg_success_flags"):
         cov[h] = hists.get(h, {})
     cov["mismatches"] = n_mism
